@@ -19,14 +19,15 @@
   that the executable `Driver` runs.
 
   Contents: the side conditions `2 ≠ 0`, `3 ≠ 0`, `b ≠ 0` in `Fq blsP` / `Fq bnP` (kernel-decided) and
-  the refinement theorems specialised to `G1Pt = F1 × F1 × F1` with `P : (W blsB).Point`
-  (Mathlib's elliptic-curve group over the field `Fq blsP`), plus the `bn128` analogues.
+  the refinement theorems specialised to `G1Pt = F1 × F1 × F1` with `P : CurvePt blsB`
+  (Mathlib's elliptic-curve group `(W blsB).Point` over the field `Fq blsP`, see `Sem/CurvePt.lean`), plus the `bn128` analogues.
 -/
 import PyEcc.Props.C17_Sub
 import PyEcc.Props.C07Opt_Bn
 import PyEcc.Props.C07_Facts
 import PyEcc.Sem.FqZMod
 import PyEcc.Sem.Primes
+import PyEcc.Sem.CurvePt
 import PyEcc.Model.Codec
 
 set_option linter.unusedSectionVars false
@@ -74,12 +75,12 @@ theorem Z1_z : Z1.2.2 = 0 := rfl
 /-! ### G1: the model functions refine Mathlib's group `(W blsB).Point` over the field `Fq blsP` -/
 
 section G1
-variable {T T₁ T₂ : G1Pt} {P Q : (W (blsB : F1)).Point}
+variable {T T₁ T₂ : G1Pt} {P Q : CurvePt (blsB : F1)}
 
 /-- `is_on_curve(T, b)` of `optimized_bls12_381` run on the model's `FQ` triples accepts exactly the
     triples that represent a Mathlib point of `y² = x³ + 4` over `Fq blsP`. -/
 theorem on_curve_iff_F1 (T : G1Pt) :
-    OptBls.is_on_curve T blsB = true ↔ ∃ P : (W (blsB : F1)).Point, Represents T P :=
+    OptBls.is_on_curve T blsB = true ↔ ∃ P : CurvePt (blsB : F1), Represents T P :=
   C07Opt.Bls.opt_on_curve_represents f1_two_ne_zero f1_three_ne_zero f1_b_ne_zero T
 
 /-- model `add` on G1 triples computes Mathlib's point addition -/
@@ -119,7 +120,7 @@ theorem clearCofactorG1_refines (h : Represents T P) :
 end G1
 
 /-- non-vacuity: the generator constant of the model is on the curve, hence represents a point -/
-example : ∃ P : (W (blsB : F1)).Point, Represents blsG1 P :=
+example : ∃ P : CurvePt (blsB : F1), Represents blsG1 P :=
   (on_curve_iff_F1 blsG1).mp C07.Facts.bls_G1_model.1
 
 /-! ### bn128 base field `Fq bnP` (the model has no typed bn128 constants; `b = FQ(3)`) -/
@@ -131,12 +132,12 @@ def bnB : Fq bnP := Fq.ofInt optimized_bn128_b
 theorem fbn_field_ok : (2 : Fq bnP) ≠ 0 ∧ (3 : Fq bnP) ≠ 0 ∧ bnB ≠ 0 := by decide +kernel
 
 section BnG1
-variable {T T₁ T₂ : Fq bnP × Fq bnP × Fq bnP} {P Q : (W bnB).Point}
+variable {T T₁ T₂ : Fq bnP × Fq bnP × Fq bnP} {P Q : CurvePt bnB}
 
 /-- `optimized_bn128.is_on_curve` on model `FQ` triples accepts exactly the representatives of Mathlib
     points of `y² = x³ + 3` over `Fq bnP` -/
 theorem on_curve_iff_Fbn (T : Fq bnP × Fq bnP × Fq bnP) :
-    OptBn.is_on_curve T bnB = true ↔ ∃ P : (W bnB).Point, Represents T P :=
+    OptBn.is_on_curve T bnB = true ↔ ∃ P : CurvePt bnB, Represents T P :=
   C07Opt.Bn.opt_on_curve_represents fbn_field_ok.1 fbn_field_ok.2.1 fbn_field_ok.2.2 T
 
 /-- `optimized_bn128.add` on model triples computes Mathlib's point addition -/
@@ -166,7 +167,7 @@ theorem opt_is_inf_refines_Fbn (h : Represents T P) : OptBn.is_inf T = true ↔ 
 end BnG1
 
 /-- non-vacuity: `optimized_bn128.G1 = (1, 2, 1)` -/
-example : ∃ P : (W bnB).Point,
+example : ∃ P : CurvePt bnB,
     Represents ((Fq.ofInt 1 : Fq bnP), (Fq.ofInt 2 : Fq bnP), (Fq.ofInt 1 : Fq bnP)) P :=
   (on_curve_iff_Fbn _).mp (by decide +kernel)
 
